@@ -61,8 +61,8 @@ theorem command_invalid_input (u : UTab) (cfg : Config) (now : Instant) (cmd : C
 
 /-- Non-vacuity: `track` with text that is not an entry fails; with an entry it succeeds. -/
 example : runCmd ⟨fun _ => false, id⟩ {} ⟨⟨2021, 3, 4, true⟩, 12, 0⟩ (.track .default ["foo".toUTF8.toList])
-    "2021-03-04\n    1h\n".toUTF8.toList = .fail := by decide
+    "2021-03-04\n    1h\n".toUTF8.toList = .fail := by decide +kernel
 example : runCmd ⟨fun _ => false, id⟩ {} ⟨⟨2021, 3, 4, true⟩, 12, 0⟩ (.track .default ["2h".toUTF8.toList])
-    "2021-03-04\n    1h\n".toUTF8.toList = .ok "2021-03-04\n    1h\n    2h\n".toUTF8.toList := by decide
+    "2021-03-04\n    1h\n".toUTF8.toList = .ok "2021-03-04\n    1h\n    2h\n".toUTF8.toList := by decide +kernel
 
 end KlogV.C05
